@@ -40,6 +40,43 @@ var ctx = context.Background()
 
 var sawTimeout atomic.Bool
 
+// stalls counts watchdog hits (runSync that never returned, settle that never drained, ops that hung)
+// in this process; after the first one the watchdogs get short, after a few the generators stop.
+var stalls atomic.Int32
+
+// liveStalls counts the settle watchdog hits alone.
+var liveStalls atomic.Int32
+
+// Stalls reports the number of watchdog hits so far: (all, of the live settle alone).
+func Stalls() (all, live int) { return int(stalls.Load()), int(liveStalls.Load()) }
+
+// StepWD is Step under a per-op watchdog: no op of the protocol may block the harness.
+func (e *Exec) StepWD(ws []string) string {
+	done := make(chan string, 1)
+	go func() {
+		done <- func() (out string) {
+			defer func() {
+				if recover() != nil {
+					out = "panic"
+				}
+			}()
+			return e.Step(ws)
+		}()
+	}()
+	wd := 90 * time.Second
+	if stalls.Load() > 0 {
+		wd = 20 * time.Second
+	}
+	select {
+	case out := <-done:
+		return out
+	case <-time.After(wd):
+		stalls.Add(1)
+		e.broken = "hang"
+		return "hang"
+	}
+}
+
 // ---- blobs ------------------------------------------------------------------------------------------
 
 // Boundary sizes sit on fixed ids (a ref is a content address, so there is exactly one empty blob):
@@ -245,6 +282,9 @@ type world struct {
 	src   *mapStore
 	dst   *mapStore
 	queue sorted.KeyValue
+
+	omu    sync.Mutex
+	outage string // fault word applied to every call at its site (the store is down), "" = up
 }
 
 type bp struct {
@@ -269,6 +309,9 @@ type gen struct {
 	bpSet  map[string]*bp    // one-shot breakpoints of queue.Set / queue.Delete, by key
 	bpDel  map[string]*bp
 	allBps []*bp
+
+	firstFault string // `drainfirst`: the first firstLeft calls at the fault's site fail
+	firstLeft  int
 
 	src *genSrc
 	dst *genDst
@@ -318,10 +361,35 @@ func (g *gen) take(m map[string]*bp, key string) *bp {
 	return b
 }
 
-func (g *gen) faultOf(br blob.Ref) string {
+// faultOf is the fault of one call at site ("fetcherr" = source Fetch, "desterr" = destination
+// ReceiveBlob): the per-blob fault if one is set; else the counted fault of `drainfirst` (the first K
+// calls at its site fail, whichever blobs they are); else the outage of the world (every call at its
+// site fails until `recover`).
+func (g *gen) faultOf(br blob.Ref, site string) string {
 	g.fmu.Lock()
 	defer g.fmu.Unlock()
-	return g.fault[br.String()]
+	if f := g.fault[br.String()]; f != "" {
+		return f
+	}
+	if g.firstLeft > 0 {
+		if b, _, _ := splitKind(g.firstFault); b == site {
+			g.firstLeft--
+			return g.firstFault
+		}
+	}
+	g.w.omu.Lock()
+	o := g.w.outage
+	g.w.omu.Unlock()
+	if b, _, _ := splitKind(o); o != "" && b == site {
+		return o
+	}
+	return ""
+}
+
+// isOutageFault: faults that fail a call unconditionally and without any effect
+func isOutageFault(w string) bool {
+	b, _, ok := splitKind(w)
+	return ok && (b == "fetcherr" || b == "desterr")
 }
 
 // act runs f under the generation lock unless the generation is dead.
@@ -378,7 +446,7 @@ func (s *genSrc) Fetch(_ context.Context, br blob.Ref) (rc io.ReadCloser, size u
 		if !ok {
 			return errors.New("c19: no such blob in source")
 		}
-		f := s.g.faultOf(br)
+		f := s.g.faultOf(br, "fetcherr")
 		if e := errOfFault(f, "fetcherr"); e != nil {
 			return e
 		}
@@ -480,7 +548,7 @@ func (d *genDst) ReceiveBlob(_ context.Context, br blob.Ref, r io.Reader) (sb bl
 		return sb, rerr
 	}
 	err = d.g.act(func() error {
-		f := d.g.faultOf(br)
+		f := d.g.faultOf(br, "desterr")
 		if e := errOfFault(f, "desterr"); e != nil {
 			return e
 		}
@@ -942,16 +1010,30 @@ func (e *Exec) Step(ws []string) string {
 		for _, i := range ids {
 			e.setCopyFault(e.note(i), ws[1], "ok")
 		}
-		total := 0
-		for round := 0; round < 10000; round++ {
-			n := e.g.sh.VerifRunSync()
-			total += n
-			if n == 0 {
-				break
-			}
-		}
+		out := e.runSyncLoop()
 		e.clearFaults()
-		return fmt.Sprintf("copied=%d", total)
+		return out
+	case "drainfirst":
+		// the first K copy attempts (whichever blobs the worker pool picks) fail with an
+		// unconditional, effect-free fault; later attempts are clean
+		if len(ws) != 3 || !isOutageFault(ws[1]) {
+			return "bad-op"
+		}
+		kk, ok := parseID(ws[2])
+		if !ok {
+			return "bad-op"
+		}
+		if len(e.cps) > 0 {
+			return "busy"
+		}
+		e.g.fmu.Lock()
+		e.g.firstFault, e.g.firstLeft = ws[1], kk
+		e.g.fmu.Unlock()
+		out := e.runSyncLoop()
+		e.g.fmu.Lock()
+		e.g.firstFault, e.g.firstLeft = "", 0
+		e.g.fmu.Unlock()
+		return out
 	case "restart":
 		if len(ws) != 1 {
 			return "bad-op"
@@ -969,6 +1051,37 @@ func (e *Exec) Step(ws []string) string {
 		return e.Dump()
 	}
 	return "bad-op"
+}
+
+// runSyncLoop is `for sh.runSync(…) > 0 {}` on the real handler, under a watchdog: a runSync that does
+// not come back (e.g. it waits for results of workers that are gone) yields "stalled".
+func (e *Exec) runSyncLoop() string {
+	sh := e.g.sh
+	done := make(chan int, 1)
+	go func() {
+		total := 0
+		for round := 0; round < 10000; round++ {
+			n := sh.VerifRunSync()
+			total += n
+			if n == 0 {
+				break
+			}
+		}
+		done <- total
+	}()
+	wd := 10 * time.Second
+	if stalls.Load() > 0 {
+		wd = 1500 * time.Millisecond
+	}
+	select {
+	case total := <-done:
+		return fmt.Sprintf("copied=%d", total)
+	case <-time.After(wd):
+		stalls.Add(1)
+		e.broken = "stalled"
+		need, _ := e.pending()
+		return fmt.Sprintf("stalled need=%d", len(need))
+	}
 }
 
 func (e *Exec) restart(live bool) {
@@ -993,6 +1106,16 @@ func (e *Exec) stepLive(ws []string) string {
 		}
 		e.acked[i] = true
 		return "ack"
+	case len(ws) == 2 && ws[0] == "outage" && isOutageFault(ws[1]):
+		e.w.omu.Lock()
+		e.w.outage = ws[1]
+		e.w.omu.Unlock()
+		return "ok"
+	case len(ws) == 1 && ws[0] == "recover":
+		e.w.omu.Lock()
+		e.w.outage = ""
+		e.w.omu.Unlock()
+		return "ok"
 	case len(ws) == 1 && ws[0] == "restart":
 		e.restart(true)
 		if e.broken != "" {
@@ -1014,6 +1137,9 @@ func (e *Exec) stepLive(ws []string) string {
 			}
 			if time.Now().After(deadline) {
 				sawTimeout.Store(true)
+				stalls.Add(1)
+				liveStalls.Add(1)
+				e.broken = "stalled"
 				return "timeout " + e.Dump()
 			}
 			time.Sleep(2 * time.Millisecond)
